@@ -32,7 +32,7 @@ func HarnessC03Walk() {
 	packWorld()
 	d := c03Name("d", []string{"d", ".terraform", ".git", "a+b"})
 	e := c03Name("e", []string{"e", "modules"})
-	f := c03Name("f", []string{"f", "x.tf"})
+	f := c03Name("f", []string{"f", "x.tf", "\u00e9.tf"}) // (a name outside ASCII: rules are text, not bytes)
 	g := c03Name("g", []string{"g", "f"})
 	h := c03Name("h", []string{"h", "f", ".terraformrc"})
 	envMkdir(packSrc+"/"+d, 0755, 1000)
